@@ -74,7 +74,8 @@ def intercept(_):
         dim = u.dimension
         physical = any(dim.exponents)
         units.append({"name": names[0], "physical": physical, "base": len(u.factors) == 1 and next(iter(u.factors)) is u,
-                      "dim": list(dim.exponents)})
+                      "dim": list(dim.exponents),
+                      "scale": u in conversions._offsets and bool(conversions._offsets[u])})
     return {"decls": decls, "units": units, "si": SI, "fund": [d.name for d in fund]}
 
 
@@ -82,14 +83,20 @@ def lattice(fr):
     return int(round(math.log(fr.numerator / fr.denominator) / STEP)) if fr > 0 else None
 
 
-def data_module(info, roots):
+def data_module(info, roots, with_pairs=False):
     rows = []
     for d in info["decls"]:
         lat = lattice(Fraction(d["ratio"][0], d["ratio"][1]))
         rows.append("  [lat |-> %d, t |-> {%s}]" % (lat, ", ".join('<<"%s", %d>>' % (b.replace('"', "'"), e) for b, e in sorted(d["t"].items()))))
     bases = sorted({b for d in info["decls"] for b in d["t"]} | {u["name"] for u in info["units"] if u["base"] and u["physical"]})
-    return ("---- MODULE DefGraphData ----\nEXTENDS Integers\nDRoots == {%s}\nDBases == {%s}\nDDecls == <<\n%s\n>>\n====\n" % (
-        ", ".join('"%s"' % r for r in roots), ", ".join('"%s"' % b.replace('"', "'") for b in bases), ",\n".join(rows)), bases)
+    classes = {}
+    if with_pairs:
+        for u in info["units"]:
+            if u["base"] and u["physical"] and not u.get("scale"):      # offset scales are C10's subject
+                classes.setdefault(tuple(u["dim"]), []).append(u["name"])
+    cls = ", ".join("{%s}" % ", ".join('"%s"' % n.replace('"', "'") for n in sorted(ns)) for ns in classes.values() if len(ns) > 1)
+    return ("---- MODULE DefGraphData ----\nEXTENDS Integers\nDRoots == {%s}\nDBases == {%s}\nDClasses == {%s}\nDDecls == <<\n%s\n>>\n====\n" % (
+        ", ".join('"%s"' % r for r in roots), ", ".join('"%s"' % b.replace('"', "'") for b in bases), cls, ",\n".join(rows)), bases)
 
 
 def exact_solution(info, roots):
@@ -229,3 +236,57 @@ def run_c09(tier, seed):
               "and from its coherent SI unit on the real library; non-trivial = declarations whose units are all connected to SI, and conversions that returned")
     v.samples = [{"declaration": d["text"], "ratio": d["ratio"], "constraint": d["t"]} for d in info["decls"][:5]]
     return v.finish()
+
+
+# =============================================================================== C04 on the shipped definitions
+
+def shipped_pairs_code(args):
+    """in an isolated child: convert between every pair TLC exported and compare with the prescribed ratio"""
+    pairs, = args
+    sys.path.insert(0, os.path.join(REPO, "src"))
+    import measured.systems  # noqa: F401
+    from measured import Unit, conversions
+    out = {"n": 0, "ok": 0, "cnf": 0, "bad": []}
+    for p in pairs:
+        a, b = Unit._by_name.get(p["a"]), Unit._by_name.get(p["b"])
+        if a is None or b is None:
+            continue
+        out["n"] += 1
+        try:
+            r = (1 * a).in_unit(b)
+        except conversions.ConversionNotFound:
+            out["cnf"] += 1
+            continue
+        except Exception as ex:
+            out["bad"].append(["shipped:escaped:%s" % type(ex).__name__, "%s -> %s" % (p["a"], p["b"])])
+            continue
+        out["ok"] += 1
+        deg = sum(abs(e) for e in a.dimension.exponents)
+        want = math.exp(p["lat"] * STEP)
+        if r.unit is not b:
+            out["bad"].append(["shipped:unit:%s->%s" % (p["a"], p["b"]), "returned %s" % r.unit])
+        if abs(float(r.magnitude) / want - 1) > 1e-5 * max(1, deg) + 4e-6:
+            out["bad"].append(["shipped:value:%s->%s" % (p["a"], p["b"]), "1 %s in %s is %r, the declared definitions give %.9g" % (p["a"], p["b"], r.magnitude, want)])
+    return out
+
+
+def shipped_pairs(v, tier, seed):
+    """C04: named units of the shipped modules; TLC prescribes the ratio of every ordered pair of one dimension"""
+    info = run_isolated(intercept, None)
+    roots = ["meter", "second", "gram", "coulomb", "kelvin", "mole", "candela", "radian", "bit"]
+    data, bases = data_module(info, roots, with_pairs=True)
+    res = run_tlc("MC_DefGraph", wd=workdir("tlc_defgraph_pairs"), workers=4, timeout=3000, overlay={"DefGraphData.tla": data})
+    if res.errors or res.violated:
+        raise MachineryError("MC_DefGraph (pairs) failed: %s %s" % (res.errors[:2], res.violated))
+    v.add_tlc(res, "MC_DefGraph with pairwise ratios of shipped named units")
+    pairs = res.exports.get("PAIR", [])
+    code = run_isolated(shipped_pairs_code, (pairs,))
+    v.impl += code["n"]
+    v.evaluations += code["n"]
+    v.nontrivial += code["ok"]
+    seen = set()
+    for k, d in code["bad"]:
+        if k not in seen:
+            seen.add(k)
+            v.violations.append({"prop": "C04", "key": k, "detail": d, "path": [k]})
+    v.extra["shipped"] = {"pairs": len(pairs), "converted": code["ok"], "conversion_not_found": code["cnf"], "violating_pairs": len(code["bad"])}
